@@ -1233,6 +1233,11 @@ where
     }
 
     fn visit_mut_stmts(&mut self, stmts: &mut Vec<Stmt>) {
+        // declarations still pending from the enclosing scopes must not be placed here
+        let outer_consts = mem::take(&mut self.injecting_consts);
+        let outer_vars = mem::take(&mut self.injecting_vars);
+        let outer_slot_counter = mem::replace(&mut self.slot_counter, 1);
+
         stmts.visit_mut_children_with(self);
 
         if !self.injecting_consts.is_empty() {
@@ -1257,12 +1262,24 @@ where
                     ..Default::default()
                 }))),
             );
-            self.slot_counter = 1;
         }
+
+        self.injecting_consts = outer_consts;
+        self.injecting_vars = outer_vars;
+        self.slot_counter = outer_slot_counter;
     }
 
     fn visit_mut_arrow_expr(&mut self, arrow_expr: &mut ArrowExpr) {
-        arrow_expr.visit_mut_children_with(self);
+        // declarations needed by the parameters belong to the enclosing scope,
+        // and those still pending from the enclosing scopes must not be placed in the body
+        arrow_expr.params.visit_mut_with(self);
+        let outer_consts = mem::take(&mut self.injecting_consts);
+        let outer_vars = mem::take(&mut self.injecting_vars);
+        let outer_slot_counter = mem::replace(&mut self.slot_counter, 1);
+
+        arrow_expr.body.visit_mut_with(self);
+        arrow_expr.type_params.visit_mut_with(self);
+        arrow_expr.return_type.visit_mut_with(self);
 
         if !self.injecting_consts.is_empty() || !self.injecting_vars.is_empty() {
             if let BlockStmtOrExpr::Expr(ret) = &*arrow_expr.body {
@@ -1284,7 +1301,6 @@ where
                         decls: mem::take(&mut self.injecting_vars),
                         ..Default::default()
                     }))));
-                    self.slot_counter = 1;
                 }
 
                 stmts.push(Stmt::Return(ReturnStmt {
@@ -1299,6 +1315,10 @@ where
                 }));
             }
         }
+
+        self.injecting_consts = outer_consts;
+        self.injecting_vars = outer_vars;
+        self.slot_counter = outer_slot_counter;
     }
 
     fn visit_mut_expr(&mut self, expr: &mut Expr) {
